@@ -590,7 +590,9 @@ def req_C07(r, tier):
     us += [(l_ + "|b255", u | (1 << 255)) for l_, u in list(us) if u < (1 << 255)]
     for i in range(sz(tier, 30, 500)):
         us.append(("rand", r.below(1 << 256)))
-    ks = [("0", 0), ("1", 1), ("8", 8), ("ff", (1 << 256) - 1), ("l", L), ("8l", 8 * L % (1 << 256)), ("clamped_l_mult", 0)]
+    ks = [("0", 0), ("1", 1), ("8", 8), ("ff", (1 << 256) - 1), ("l", L), ("8l", 8 * L % (1 << 256)), ("clamped_l_mult", 0),
+          ("l-1", L - 1), ("l-2", L - 2), ("l-9", L - 9), ("2^252", 1 << 252), ("2^252+1", (1 << 252) + 1), ("2^252-1", (1 << 252) - 1),
+          ("2^253-1", (1 << 253) - 1), ("2^254", 1 << 254), ("2^255-1", M255)]
     for i in range(sz(tier, 20, 300)):
         ks.append(("rand", r.below(1 << 256)))
     # RFC 7748 vectors
@@ -672,6 +674,11 @@ def req_C08(r, tier):
         bad = bytearray(pk); bad[r.below(32)] ^= 1 << r.below(8)
         out.append(("eds.from_keypair:flipped", "eds.from_keypair " + (sd + bytes(bad)).hex()))
         out.append(("eds.from_keypair:other", "eds.from_keypair " + (sd + ed_pub(r.bytes(32))).hex()))
+        out.append(("eds.from_keypair:undecodable", "eds.from_keypair " + (sd + bad_point_encodings(r, 1)[0][1]).hex()))
+        for lt, tb in torsion_encodings()[:4]:
+            out.append(("eds.from_keypair:torsion_" + lt, "eds.from_keypair " + (sd + tb).hex()))
+        nc = bytearray(pk); nc[31] ^= 0x80
+        out.append(("eds.from_keypair:signflip", "eds.from_keypair " + (sd + bytes(nc)).hex()))
         for m in msgs(r, sz(tier, 2, 8)):
             out.append(("eds.sign:len%d" % len(m), "eds.sign %s %s" % (sd.hex(), hx(m))))
             sig = ed_sign(sd, m)
@@ -845,6 +852,21 @@ def req_C13(r, tier):
                     if tr2[j][3] == tr2[k][3]:
                         continue
                 out.append(("eds.batch:corrupt_%s:n=%d" % (what, n), batch_line(tr2)))
+            # correlated faults: errors that cancel under EQUAL coefficients (swap the S halves of two entries; s_a + d, s_b - d)
+            if n >= 2:
+                for (ja, jb) in ((0, 1), (0, n - 1)):
+                    if ja == jb or tr[ja][2] == tr[jb][2]:
+                        continue
+                    tr2 = [list(t) for t in tr]
+                    sa, sb = tr2[ja][2], tr2[jb][2]
+                    tr2[ja][2] = sa[:32] + sb[32:]
+                    tr2[jb][2] = sb[:32] + sa[32:]
+                    out.append(("eds.batch:swapS:n=%d" % n, batch_line(tr2)))
+                    d_ = 1 + r.below(L - 1)
+                    tr3 = [list(t) for t in tr]
+                    tr3[ja][2] = sa[:32] + tole((le(sa[32:]) + d_) % L)
+                    tr3[jb][2] = sb[:32] + tole((le(sb[32:]) - d_) % L)
+                    out.append(("eds.batch:shiftS_pair:n=%d" % n, batch_line(tr3)))
             # two independent faults
             if n >= 3:
                 tr2 = [list(t) for t in tr]
@@ -891,7 +913,9 @@ def req_C16(r, tier):
     vals["ristretto"] = [b for _, b in ris_pool(r, n)]
     vals["cristretto"] = [r.bytes(32) for _ in range(n)] + vals["ristretto"][:4]
     vals["montgomery"] = [r.bytes(32) for _ in range(n)]
-    vals["vk"] = [ed_pub(r.bytes(32)) for _ in range(n)]
+    noncanon = [b for l_, b in torsion_encodings() if ":" in l_] + [b for l_, b in point_pool(r, 0) if l_.startswith("noncanon")]
+    vals["vk"] = [ed_pub(r.bytes(32)) for _ in range(n)] + noncanon + [b for _, b in torsion_encodings()[:8]]
+    vals["cedwards"] = vals["cedwards"] + noncanon
     vals["sk"] = [r.bytes(32) for _ in range(n)]
     vals["sig"] = [ed_sign(r.bytes(32), b"m") for _ in range(n)] + [r.bytes(64) for _ in range(n)]
     vals["xpub"] = [r.bytes(32) for _ in range(n)]
